@@ -394,8 +394,8 @@ fn enumerate(_tier: Tier, idx: u32, of: u32, cx: &mut Cx) -> CaseResult {
     cx.inner_nontrivial += 1;
     crate::engine::force_remove(&sub);
 
-    // Many versions: 72 versions that each own one block, two of them deleted; each of the
-    // 70 kept ones must keep its block and restore.
+    // Many versions: 135 versions that each own one block, two of them deleted; each of the
+    // 133 kept ones must keep its block and restore.
     crate::engine::heartbeat();
     let m = crate::probes::plain_meta();
     let mut t = crate::tree::Tree::empty_root(crate::tree::Meta { mode: 0o755, ..m });
@@ -407,7 +407,7 @@ fn enumerate(_tier: Tier, idx: u32, of: u32, cx: &mut Cx) -> CaseResult {
     cx3.scratch = sub.clone();
     let mut w = World::new(&sub, &t);
     let o = ops::Opts { hunk: 100, block: 1 << 16, cap: 0 };
-    for v in 0..72u32 {
+    for v in 0..135u32 {
         if v % 8 == 0 {
             crate::engine::heartbeat();
         }
@@ -430,10 +430,10 @@ fn enumerate(_tier: Tier, idx: u32, of: u32, cx: &mut Cx) -> CaseResult {
     w.bands.remove(&10);
     let post = format::scan(&w.arch);
     let kept: Vec<u32> = post.bands.keys().copied().collect();
-    ensure!(kept.len() == 70, "C05/probe-many-versions/wrong-versions-removed", "{} versions remain", kept.len());
+    ensure!(kept.len() == 133, "C05/probe-many-versions/wrong-versions-removed", "{} versions remain", kept.len());
     let referenced = post.referenced_hashes(kept.iter().copied());
     if let Some(h) = referenced.iter().find(|h| !post.blocks.contains_key(*h)) {
-        fail!("C05/referenced-block-removed/probe-many-versions", "block {} referenced by one of 70 kept versions is gone", &h[..12]);
+        fail!("C05/referenced-block-removed/probe-many-versions", "block {} referenced by one of 133 kept versions is gone", &h[..12]);
     }
     let mut n = 0;
     for (id, tr) in w.complete_bands() {
